@@ -39,7 +39,7 @@ pub enum JsonId {
 #[derive(Serialize, Deserialize, Debug, Clone)]
 #[serde(transparent)]
 pub struct Token {
-	#[serde(with = "secp_ser::option_seckey_serde")]
+	#[serde(with = "dalek_ser::option_seckey_serde")]
 	/// Token to XOR mask against the stored wallet seed
 	pub keychain_mask: Option<SecretKey>,
 }
@@ -49,7 +49,7 @@ pub struct Token {
 #[serde(transparent)]
 pub struct ECDHPubkey {
 	/// public key, flattened
-	#[serde(with = "secp_ser::pubkey_serde")]
+	#[serde(with = "dalek_ser::pubkey_serde")]
 	pub ecdh_pubkey: PublicKey,
 }
 
